@@ -305,6 +305,9 @@ func DecBE8(b *Term) *Term {
 	if b.Op == "be8" {
 		return b.Args[0]
 	}
+	if b.Op == "cat" && b.Args[0].Op == "be8" {
+		return b.Args[0].Args[0]
+	}
 	if b.Op == "ite" {
 		return Ite(b.Args[0], DecBE8(b.Args[1]), DecBE8(b.Args[2]))
 	}
@@ -313,6 +316,9 @@ func DecBE8(b *Term) *Term {
 func DecBE4(b *Term) *Term {
 	if b.Op == "be4" {
 		return b.Args[0]
+	}
+	if b.Op == "cat" && b.Args[0].Op == "be4" {
+		return b.Args[0].Args[0]
 	}
 	if b.Op == "ite" {
 		return Ite(b.Args[0], DecBE4(b.Args[1]), DecBE4(b.Args[2]))
